@@ -195,10 +195,14 @@ Definition f32_round (q : Qc) : Qc :=
   let r := (Q2Qc (inject_Z (round_half_even (a * pow2 (23 - e))%Qc)) * pow2 (e - 23))%Qc in
   if Qle_bool (this q) 0 then (- r)%Qc else r.
 Definition f32_exact (q : Qc) : bool := Qeq_bool (this (f32_round q)) (this q).
+(* model switch (read by harness/c18.py as well): false = the code as it is (binary32 literals); true = after the repair
+   /verif/fixes/proposed_fix_C18_stpnt.diff, which writes double-precision literals (0.1d0) *)
+Definition fixed_stpnt : bool := false.
+Definition stpnt_value (q : Qc) : Qc := if fixed_stpnt then q else f32_round q.
 (* values that `stpnt` leaves in PAR / U when called *)
 Definition compiled_stpnt (e : emission) : list (Z * Qc) * list (Z * Qc) :=
-  (map (fun t => (fst (fst t), f32_round (snd (fst t)))) (e_stpnt e),
-   map (fun t => (fst (fst t), f32_round (snd (fst t)))) (e_stpnt_y e)).
+  (map (fun t => (fst (fst t), stpnt_value (snd (fst t)))) (e_stpnt e),
+   map (fun t => (fst (fst t), stpnt_value (snd (fst t)))) (e_stpnt_y e)).
 Definition spec_stpnt (e : emission) : list (Z * Qc) * list (Z * Qc) :=
   (map (fun t => (fst (fst t), snd (fst t))) (e_stpnt e), map (fun t => (fst (fst t), snd (fst t))) (e_stpnt_y e)).
 (* guard of the partial theorem / of known finding C18-stpnt-single-precision *)
